@@ -53,6 +53,18 @@ impl Shared {
         let s = self.next_stamp();
         self.log.lock().unwrap().push((s, v));
     }
+    /// log an observation of shared state: the value is (re)measured until no other event took a stamp between
+    /// the measurement and the stamping, so the line's place in the log is the instant of the measurement
+    pub fn emit_measured<F: FnMut() -> Value>(&self, mut f: F) {
+        loop {
+            let before = self.stamp.load(Ordering::SeqCst);
+            let v = f();
+            if self.stamp.compare_exchange(before, before + 1, Ordering::SeqCst, Ordering::SeqCst).is_ok() {
+                self.log.lock().unwrap().push((before, v));
+                return;
+            }
+        }
+    }
     pub fn key_name(&self, k: &[u8]) -> String {
         let mut m = self.keynames.lock().unwrap();
         if let Some(n) = m.get(k) {
